@@ -5,7 +5,7 @@ PROPS["C19"] = dict(
     timeout={"quick": 1800, "thorough": 6 * 3600},
     rule="per case: a DSP thread runs Run(n) slices (n in 1..3000) of an interrupt-driven echo guest (CMD0/CMD2 echoed from the "
          "APBP interrupt handler, CMD1 polled in the main loop with its interrupt disabled by a DSP-side register write every "
-         "iteration, semaphore acknowledged and echoed) while the host thread runs 'rounds' of stop-and-wait sends (value = "
+         "iteration, semaphore acknowledged and echoed; per case the APBP handler is entered with or without a context switch and a timer on a second core line fires with period 0/6/9/50/333/1000) while the host thread runs 'rounds' of stop-and-wait sends (value = "
          "increasing sequence number per channel) and bursts of all ten mailbox/semaphore API calls; host callbacks re-enter "
          "the API; delays at the H3 hand-over points are drawn from the case seed. ThreadSanitizer (tsan job) reports are "
          "deduplicated by kind and first teakra frames. distinct_nontrivial = distinct interleaving signatures (hash of the "
